@@ -36,6 +36,11 @@ if int(rnd) >= 5:
               "zero-length legs, equal values / exact ties, float64 inputs, empty selections, a single customer / job / machine); (4) an option that is only wrong in combination "
               "with ANOTHER non-default option or with a particular phase (train vs val/test); (5) instances whose size differs from the size the env / generator was constructed with; "
               "(6) object reuse: the same env / policy / baseline / dataset object used for a second episode, epoch, file or batch of a different shape.")
+if int(rnd) >= 6:
+    extra += ("\n\nFor THIS round prefer, in this order: (a) a change that only shows at a larger scale than toy examples - instances with 30-100+ nodes / jobs, long episodes, many decoding "
+              "steps, many epochs or batches, large batch sizes (e.g. a lookup table keyed by size, an algorithm switch above a size threshold, an integer dtype that overflows, a quadratic "
+              "buffer, a step cap, a tolerance that only bites for long sums); (b) a rare data-dependent branch (exact ties, a degenerate sub-case, an instance feature that the default "
+              "generator produces in < 5% of instances); (c) two cooperating edits in different files that are each harmless alone. Say in notes.md which scale / frequency is needed.")
 extra += f"\n\nHousekeeping: test runs create large 'data/' and 'lightning_logs/' directories inside your worktree; delete both (rm -rf {wt}/data {wt}/lightning_logs) before you finish. Use at most 4 CPU cores (e.g. OMP_NUM_THREADS=2). The test suite takes 5-10 minutes; run it in the background with output to a file and a generous timeout rather than blocking on it. Do NOT use 'git stash' (shared between worktrees of other people working in parallel): keep your changes as patch files and use 'git apply' / 'git apply -R' / 'git checkout -- rl4co'. Do not use pkill/killall with patterns that could match other people's processes.\n"
 out = f"/tmp/seed{rnd}-prompt-{pid}.txt"
 open(out, "w").write(base + extra)
